@@ -128,6 +128,15 @@ def parallel_stage(ctx, thorough, protos=None, sflow_filter=None):
             j = make_job(ctx, proto, 4, ctx.seed * 1000 + 850, 120 if thorough else 60)
             j["free"] = True
             j["filter"] = sflow_filter or [7, 2]
+            # header fields that look like sample headers: agents of both address families whose sub-agent id and sequence
+            # number are small numbers - 1, and the types on the list - followed by one flow sample (which the list keeps)
+            gs = gen_sflow.Gen(ctx.rng)
+            for v6 in (False, True):
+                for sub in (0, 1, 2):
+                    for seq in sorted(set(j["filter"]) | {1}):
+                        m, _ = gs.datagram(v6=v6, sub=sub, seq=seq, only=1)
+                        if len(m) <= 1400:
+                            j["data"].append({"exp": j["data"][0]["exp"], "buf": m})
             jobs.append(j)
     for i, j in enumerate(jobs):
         j["id"] = 900 + i
